@@ -90,6 +90,7 @@ type opMeta struct {
 	gen    int
 	buf    []byte
 	bad    []int
+	ok     map[int]bool // servers the task has sent SetVersion to (its survivors)
 }
 
 // Weights of the generic actions.
@@ -273,7 +274,7 @@ func (d *Driver) StartReplicate(blob, tract int, bad []int) *Event {
 		ids = append(ids, core.TractserverID(x))
 	}
 	tid := d.tractID(blob, tract)
-	m := &opMeta{kind: EvStartRepl, blob: blob, tract: tract, gen: cur.Gen, bad: bad}
+	m := &opMeta{kind: EvStartRepl, blob: blob, tract: tract, gen: cur.Gen, bad: bad, ok: map[int]bool{}}
 	op := d.Cl.S.Go("replicate", m, func() interface{} {
 		return OpResult{Kind: EvStartRepl, Err: cur.ReplicateTract(tid, ids)}
 	})
@@ -338,22 +339,28 @@ func (d *Driver) pinPlacement(r *RPC) {
 			return
 		}
 		need := 0
+		var tm *opMeta
 		for _, t := range d.tasks {
 			if m, ok := t.Meta.(*opMeta); ok && m != nil && m.kind == EvStartRepl && m.gen == r.Gen && m.blob == bi && m.tract == r.Tract {
 				need = len(m.bad)
+				tm = m
 				break // the earliest one holds the tract lock, a later one waits for it
 			}
 		}
 		if need == 0 {
 			return
 		}
-		isHost := map[int]bool{}
-		for _, h := range d.Cl.D.Tract(d.tractID(bi, r.Tract)).Hosts {
-			isHost[int(h)] = true
+		// allocateTS(len(bad), ok, bad) chooses among the servers the incarnation knows, minus ok, minus bad
+		excl := map[int]bool{}
+		for _, h := range tm.bad {
+			excl[h] = true
+		}
+		for h := range tm.ok {
+			excl[h] = true
 		}
 		var non []int
 		for i := 1; i < len(d.Cl.TS); i++ {
-			if inc.KnowsTS(core.TractserverID(i)) && !isHost[i] {
+			if inc.KnowsTS(core.TractserverID(i)) && !excl[i] {
 				non = append(non, i)
 			}
 		}
@@ -516,6 +523,15 @@ func (d *Driver) after(ev *Event) *Event {
 		if !d.known[r] {
 			d.known[r] = true
 			ev.NewRPCs = append(ev.NewRPCs, r)
+			if r.Client < 0 && r.Kind == KSetVersion {
+				// the survivors of the re-replication that holds this tract's lock (the earliest one)
+				for _, t := range d.tasks {
+					if m, ok := t.Meta.(*opMeta); ok && m != nil && !t.Done && m.kind == EvStartRepl && m.gen == r.Gen && m.blob == d.blobIdx(r.Blob) && m.tract == r.Tract {
+						m.ok[r.TS] = true
+						break
+					}
+				}
+			}
 		}
 	}
 	// resumed callers
@@ -788,6 +804,9 @@ func (d *Driver) pickMode(r *RPC) int {
 	case x < lose+fail:
 		return ModeFail
 	case x < lose+fail+w.PTwice:
+		if r.Kind == KFixVersion {
+			return ModeDeliver // a duplicated FixVersion request is just a second FixVersion request
+		}
 		return ModeTwice
 	case x < lose+fail+w.PTwice+w.PExecOnly:
 		return ModeExecOnly
